@@ -29,6 +29,16 @@ fn ts(cfg: usize, p: &Value) -> jiff::Timestamp {
     let (bs, bn, l) = TIME_CFGS[cfg];
     let c = p[0].as_i64().unwrap();
     let f = p[1].as_i64().unwrap();
+    // far points of the specification's time domain
+    match c {
+        9 => return jiff::Timestamp::MAX,
+        -9 => return jiff::Timestamp::MIN,
+        8 | -8 => {
+            let far: i128 = (bs as i128) * 1_000_000_000 + bn as i128 + (c.signum() as i128) * 300 * 365 * 86_400 * 1_000_000_000;
+            return jiff::Timestamp::from_nanosecond(far).expect("far time point representable");
+        }
+        _ => {}
+    }
     let total: i128 = (bs as i128) * 1_000_000_000 + bn as i128 + (c as i128) * (l as i128) + f as i128;
     jiff::Timestamp::from_nanosecond(total).expect("time point representable")
 }
